@@ -455,7 +455,8 @@ def run(chk):
         "are hand-written and cross-checked against the implementation's dump on every run)",
     ]
     chk.assumptions += [
-        "numeric literals in generated programs are short decimals whose f64 -> rational conversion is exact",
+        "numeric literals in generated programs are decimals (also in scientific notation, down to subnormal and up to "
+        "huge finite magnitudes) that are non-zero and finite as f64 exactly when they are non-zero as decimals",
         "generated names (va*, fa*, pa*, pb*, uu*, bb*, DimA*, DimB*, DA..DD) do not clash with prelude identifiers",
         "exponents on dimensionful bases are constant expressions of literals (the property's guard)",
     ]
@@ -471,6 +472,7 @@ def run(chk):
         cases.append(dict(inputs=[list(x) for x in D.from_json(c["inputs"])], kind="corpus", why=c.get("why", "")))
     ncorpus = len(cases)
     cases += D.gen_cases(chk.rng, nprog)
+    cases += D.gen_literal_cases(chk.rng, 90 if quick else 900)
     check_expectations(cases)
     soups = [D.gen_soup(chk.rng) for _ in range(max(20, len(cases) // 9))]
     T["generate_s"] = round(time.time() - t0, 1)
@@ -567,7 +569,10 @@ def run(chk):
         "rule": "corpus/c02.json, then seeded typed generation: well-dimensioned programs of 3-10 statements "
                 "(dimensions known by construction), 1-2 mis-dimensioned variants of each (operand unit swapped in "
                 "+ - comparison -> if-branches list / argument lists, annotation or return annotation changed, call "
-                "arguments permuted, alternative dimension expression changed) and two-input sessions; plus a "
+                "arguments permuted, alternative dimension expression changed) and two-input sessions; a family of literals "
+                "of special magnitude (spellings of zero, subnormal, smallest normal, scientific notation, huge finite) as "
+                "operand of a sum / comparison, annotated value, argument, conditional branch and list element next to a "
+                "dimensionful quantity (accepted iff the literal is exactly zero); plus a "
                 "malformed token-soup stream run on the implementation only. Non-trivial = the case contains a "
                 "function definition or an input rejected by the type checker; distinct = distinct implementation "
                 "observation strings (verdict + raw type scheme of every statement) among those",
